@@ -31,7 +31,7 @@ RING_TABLE_INPUT_BASE_SETTERS = {"set_num_axial_poss_per_segment", "set_min_axia
 
 
 def requests():
-    return [Request(u, fn=[c + "::.*" for c in CLASSES], files=FILES) for u in UNITS]
+    return [Request(u, fn=[c + "::.*" for c in CLASSES] + ["stir::ProjDataInfo::.*"], files=FILES) for u in UNITS] + [Request("src/buildblock/ProjDataInfo.cxx", fn=["stir::ProjDataInfo::.*"], files=FILES)]
 
 
 def uniq(fns):
@@ -214,6 +214,88 @@ def rule_c(ctx, fns):
     return n
 
 
+IMMUTABLE_GETTERS = {"get_scanner_ptr", "get_scanner_sptr"}  # the scanner of a ProjDataInfo is fixed at construction
+
+
+def rule_e_tables_from_fixed_inputs(ctx, fns):
+    """What a lazily built detector table STORES may only be computed from inputs that cannot change afterwards (the scanner) or whose
+    every setter resets the table's flag.  A value that depends on, say, the current number of views goes stale when set_num_views()
+    is called on the object or on a clone (which copies table and flag).  Sanity checks that end in error() may read anything."""
+    byqn = {}
+    for f in fns:
+        if f.body is not None:
+            byqn.setdefault(f.qn, f)
+
+    def getter_fields(qn, depth=0):
+        f = byqn.get(qn)
+        if f is None or depth > 4:
+            return None
+        out = set()
+        for m in f.walk():
+            if m.k == "MemberExpr" and m.get("mk") == "field" and m.c and m.c[0].k == "CXXThisExpr":
+                out.add(m.get("n"))
+            elif m.k == "CXXMemberCallExpr" and m.c and m.c[0].k == "CXXThisExpr" and m.callee and m.callee != qn and (m.callee or "").split("::")[-1] not in IMMUTABLE_GETTERS:
+                sub = getter_fields(m.callee, depth + 1)
+                if sub is None:
+                    return None
+                out |= sub
+        return out
+
+    n = 0
+    seen = set()
+    for f in fns:
+        if f.body is None or not f.short.startswith("initialise_") or f.short.endswith("_if_not_done_yet") or "det1det2" not in f.short or (f.file, f.line) in seen:
+            continue
+        seen.add((f.file, f.line))
+        defs = LocalDefs(f)
+        flags = {m.get("n") for m in f.walk() if m.k == "MemberExpr" and m.get("mk") == "field" and m.c and m.c[0].k == "CXXThisExpr" and (m.get("n") or "").endswith(("_initialised", "_computed"))}
+        tables = set()
+        stores = []
+        for m in f.walk():
+            for e in written_lvalues(m):
+                r = root_of_lvalue(e)
+                if r.startswith("this.") and r[5:] not in flags:
+                    tables.add(r[5:])
+                    stores.append(m)
+        # everything the stored values / sizes are computed from (data slice through locals, plus the loops that drive the indices)
+        srcs = []
+        for m in stores:
+            srcs += [c for c in m.c]
+            for a in m.ancestors():
+                if a.k == "ForStmt":
+                    srcs += [a.c[0], a.c[1]]
+        sl = data_slice(f, srcs, defs)
+        bad = []
+        for x in sl:
+            if x.k == "CXXMemberCallExpr" and x.c and x.c[0].k == "CXXThisExpr" and x.callee:
+                short = x.callee.split("::")[-1]
+                if short in IMMUTABLE_GETTERS:
+                    continue
+                flds = getter_fields(x.callee)
+                bad.append((short, x, flds))
+            elif x.k == "MemberExpr" and x.get("mk") == "field" and x.c and x.c[0].k == "CXXThisExpr" and x.get("n") not in tables and x.get("n") not in flags:
+                if x.parent is not None and x.parent.k == "CXXMemberCallExpr" and x.parent.c and x.parent.c[0] is x:
+                    continue
+                bad.append((x.get("n"), x, {x.get("n")}))
+        # a dependency is fine if every function that assigns one of its fields (outside constructors) also resets this table's flag
+        problems = []
+        for short, x, flds in bad:
+            if flds is None:
+                problems.append("%s() (body not available)" % short)
+                continue
+            for fld in sorted(flds):
+                writers = [g for g in fns if g.body is not None and not g.is_ctor and any(root_of_lvalue(e) == "this." + fld for m2 in g.walk() for e in written_lvalues(m2))]
+                for g in writers:
+                    resets = any(m2.k == "BinaryOperator" and m2.op == "=" and key(m2.c[0]).replace("this.", "") in flags and m2.c[1].strip().get("v") is False for m2 in g.walk())
+                    overridden = any(h.short == g.short and h.cls == f.cls and h is not g and any(m2.k == "BinaryOperator" and m2.op == "=" and key(m2.c[0]).replace("this.", "") in flags and m2.c[1].strip().get("v") is False for m2 in h.walk()) for h in fns if h.body is not None)
+                    if not resets and not overridden:
+                        problems.append("%s -> field %s, which %s changes without resetting %s" % (short, fld, g.qn.split("::")[-1], sorted(flags)))
+        problems = sorted(set(problems))
+        ctx.ob("C01.e-tables-from-fixed-inputs", f.qn, "stored-values", not problems, f.where(), "what is stored in %s is computed from the scanner only" % sorted(tables) if not problems else "stored table values depend on state that can change after the table was built: " + "; ".join(problems[:3]))
+        n += 1
+    return n
+
+
 def rule_d(ctx, fns):
     n = 0
     for f in fns:
@@ -285,6 +367,8 @@ def run(ctx):
     nb = rule_b(ctx, fns)
     nc = rule_c(ctx, fns)
     nd = rule_d(ctx, fns)
+    rule_e_tables_from_fixed_inputs(ctx, fns)
+    ctx.require_count("C01.e-tables-from-fixed-inputs", 2)
     ctx.require_count("C01.a-swap-duality", 3)
     ctx.require_count("C01.b-initialise-before-read", 8)
     ctx.require_count("C01.c-tables-invalidated", 7)
